@@ -546,6 +546,7 @@ func checkDrainStart(w *World, r *Report, rule string) {
 // Rules that look for a construct "in function f" accept it in f's family, so that splitting f into
 // private helpers does not hide the construct.
 func (w *World) family(fn *ssa.Function) []*ssa.Function {
+	defer w.keepCtx()()
 	if fn == nil {
 		return nil
 	}
@@ -592,6 +593,7 @@ func (w *World) family(fn *ssa.Function) []*ssa.Function {
 
 // holder: the member of fn's family for which pred holds (exactly one), or nil.
 func (w *World) holder(fn *ssa.Function, pred func(f *ssa.Function) bool) *ssa.Function {
+	defer w.keepCtx()()
 	var found *ssa.Function
 	for _, f := range w.family(fn) {
 		if pred(f) {
@@ -887,4 +889,52 @@ func (rc retCase) reachedFrom(g *FG, edges []Edge) bool {
 		}
 	}
 	return rr[rc.via.from]
+}
+
+// indexLoopEvery: the marked action happens exactly once for every element of the slice with access
+// path `over`, in a loop `for i < len(over)` (index or range form) that is reached on every path and
+// left only through its bound.
+func (w *World) indexLoopEvery(g *FG, over string, A []bool) bool {
+	bound, _ := g.CondEdges(func(v ssa.Value) (bool, bool) {
+		b, ok := v.(*ssa.BinOp)
+		return true, ok && b.Op == token.LSS && w.pathOf(b.Y) == "len("+over+")"
+	})
+	if len(bound) == 0 || !anyOf(A) {
+		return false
+	}
+	hdr := make([]bool, len(g.ins))
+	for _, e := range bound {
+		hdr[e.from] = true
+	}
+	if !g.AfterEntry(hdr) {
+		return false
+	}
+	for _, e := range bound {
+		rr := g.reach([]int{e.to}, A, nil)
+		if rr[e.from] {
+			return false // an iteration without the action
+		}
+		for _, x := range g.returns {
+			if rr[x] {
+				return false
+			}
+		}
+	}
+	for _, a := range members(A) {
+		if !g.OnlyVia(bound, a) {
+			return false
+		}
+		rr := g.reach(g.succ[a], hdr, nil)
+		for _, b := range members(A) {
+			if rr[b] {
+				return false
+			}
+		}
+		for _, x := range g.returns {
+			if rr[x] {
+				return false
+			}
+		}
+	}
+	return true
 }
